@@ -357,6 +357,9 @@ pub struct RunState<'a, M: MachineIO<MachineStack>> {
     ctx: CommandContext,
     // Cursors for `QueryStart` results
     query_iter_stack: Vec<(Fact, M::QueryIterator)>,
+    /// Depth of `query_iter_stack` at each active call, so that returning
+    /// out of a `map` loop disposes of the cursors the callee left open.
+    call_query_depth: Vec<usize>,
     #[cfg(feature = "bench")]
     stopwatch: Stopwatch,
 }
@@ -376,6 +379,7 @@ where
             io,
             ctx,
             query_iter_stack: vec![],
+            call_query_depth: vec![],
             #[cfg(feature = "bench")]
             stopwatch: Stopwatch::new(),
         }
@@ -637,6 +641,7 @@ where
                     // Store the current PC. The PC will be incremented after return,
                     // so there's no need to increment here.
                     self.call_state.push(self.pc);
+                    self.call_query_depth.push(self.query_iter_stack.len());
                     self.pc = n;
                     return Ok(MachineStatus::Executing);
                 }
@@ -660,6 +665,7 @@ where
                     // Store the current PC. The PC will be incremented after return,
                     // so there's no need to increment here.
                     self.call_state.push(self.pc);
+                    self.call_query_depth.push(self.query_iter_stack.len());
                     self.pc = n;
                     return Ok(MachineStatus::Executing);
                 }
@@ -673,6 +679,11 @@ where
                     .call_state
                     .pop()
                     .ok_or_else(|| self.err(MachineErrorType::CallStack))?;
+                // A `return` inside a `map` loop leaves the loop's cursor
+                // open; the caller's `QueryNext` must not see it.
+                if let Some(depth) = self.call_query_depth.pop() {
+                    self.query_iter_stack.truncate(depth);
+                }
                 self.scope.exit_function().map_err(|e| self.err(e))?;
             }
             Instruction::ExtCall(module, proc) => {
@@ -1231,6 +1242,8 @@ where
     fn setup_function(&mut self, label: &Label) -> Result<(), MachineError> {
         self.set_pc_by_label(label)?;
         self.call_state.clear();
+        self.call_query_depth.clear();
+        self.query_iter_stack.clear();
         self.scope.clear();
 
         Ok(())
